@@ -489,6 +489,11 @@ class PostprocessAttributes(Contract):
         ex.oblige("post.no_length_mismatch", z3.Not(len_mismatch), "post")
         ex.oblige("post.rows_pairwise_distinct", z3.Not(has_duplicate_rows(ctx, E2)), "post",
                   note="duplicate exponents must be rejected")
+        # (from the property text, not from the order of the statements: "reject duplicate exponents" is about the attributes as
+        #  they are handed in - a repeated exponent whose coefficient happens to be zero is still a repeated exponent, and whether
+        #  it is noticed must not depend on retain_coefficients)
+        ex.oblige("post.duplicate_exponents_as_given_are_rejected", z3.Not(has_duplicate_rows(ctx, ExpMat(n, D, lambda t: rf(t)))), "post",
+                  note="accepted attributes have pairwise distinct exponent rows BEFORE any pruning")
         if names_kind == "tuple":
             ex.oblige("post.names_checked", z3.Implies(nlen(ex.names_in) >= 1, self._names_ok_in(ctx, ex)), "post",
                       note="duplicate names / wrong name count must be rejected")
@@ -596,6 +601,15 @@ def postprocess_apply(ex, E, Cin, names, rc_arg, rn_arg, node):
         for h in getattr(ex, "pair_hints", []):
             ctx.assume(ctx.bool("hint") == h(t0, s0))
         raise_("PolynomialConstructionError", node, "duplicate rows")
+    if E2 is not E and ex.decide(has_duplicate_rows(ctx, E), "postprocess.dup_rows_as_given"):
+        # the duplicate test is made on the rows as they are handed in (verified: post.duplicate_exponents_as_given_are_rejected):
+        # a repeated exponent is rejected even when the pruning above would have removed one of the two rows
+        t0, s0 = ctx.int("dup_t"), ctx.int("dup_s")
+        ctx.assume(z3.And(0 <= t0, t0 < s0, s0 < E.n, meq(E.row(t0), E.row(s0), E.D)))
+        ex.dup_matrix = E
+        for h in getattr(ex, "pair_hints", []):
+            ctx.assume(ctx.bool("hint") == h(t0, s0))
+        raise_("PolynomialConstructionError", node, "duplicate rows as given")
     return E2, C1, names2
 
 
